@@ -18,6 +18,44 @@ def graphs(tier, seed):
     return out
 
 
+def real_world(tier, seed):
+    """closed CFGs of standard-library functions (bytecode front end) with 25-250 blocks"""
+    import dis
+    import importlib
+    import types
+    common.import_repo()
+    from numba_scfg.core.datastructures.flow_info import FlowInfo
+    mods = "argparse ast calendar cmd codecs collections copy csv difflib fnmatch fractions inspect json.decoder " \
+           "linecache pprint random shlex statistics string textwrap tokenize types".split()
+    out = []
+    for m in mods:
+        try:
+            mod = importlib.import_module(m)
+        except Exception:  # noqa: BLE001
+            continue
+        objs = list(vars(mod).values())
+        for o in list(objs):
+            if isinstance(o, type):
+                objs += list(vars(o).values())
+        for o in objs:
+            co = getattr(getattr(o, "__func__", o), "__code__", None)
+            if not isinstance(co, types.CodeType) or getattr(co, "co_exceptiontable", b""):
+                continue
+            try:
+                scfg = FlowInfo.from_bytecode(dis.Bytecode(co)).build_basicblocks()
+                names = list(scfg.graph)
+                idx = {n: i for i, n in enumerate(names)}
+                succ = tuple(tuple(idx[t] for t in scfg.graph[n]._jump_targets) for n in names)
+            except Exception:  # noqa: BLE001
+                continue
+            if 25 <= len(succ) <= 250 and gen.closed(succ):
+                out.append(succ)
+    out = sorted(set(out), key=lambda s: (len(s), s))
+    rng = random.Random(seed * 31 + 9)
+    rng.shuffle(out)
+    return out[: (6 * common.boost() if tier == "quick" else 400)]
+
+
 def walk_check(succ, walks=(40, 400, 1)):
     """returns (status, detail): status in ok / diff / abort"""
     scfg = export.mk_scfg(succ)
@@ -38,7 +76,10 @@ def walk_check(succ, walks=(40, 400, 1)):
 
 def run(tier, seed):
     gs = graphs(tier, seed)
+    rw = real_world(tier, seed)
+    gs += rw
     stats, uncertified = steps.certify_chains(gs)
+    stats["standard_library_functions"] = {"count": len(rw), "blocks": sorted(len(g) for g in rw)}
     viol = []
     nwalk = {"ok": 0, "diff": 0, "abort": 0}
     for g in gs:
